@@ -10,6 +10,7 @@ def register(db):
     register_choices(db)
     register_parser_ns_map(db)
     register_xsi_cache(db)
+    register_find_subclass(db)
     P = ["C14"]
     # ------------------------------------------------------------------ memoised wildcard matching
     M = "uf('match_ns', 'bool', self.namespaces, {q})"
@@ -201,4 +202,36 @@ def register_xsi_cache(db):
         properties=["C14"], replay="replay_xsi_cache", ghost_pre=modules_now,
         note="history independence of XmlContext.find_type / find_types / find_type_by_fields; "
              "assumed: len(sys.modules) is the module count of the interpreter state now",
+    ))
+
+
+def register_find_subclass(db):
+    """find_subclass is a *lookup*: the list it gets from find_types is the context's live index entry for that qname
+    (find_type reads its last element, find_subclass its first compatible one), so the lookup must leave it as it is -
+    otherwise what a context answers depends on which xsi:type substitutions it resolved before."""
+    for m in ("insert", "pop", "append", "remove", "sort", "reverse", "extend", "clear"):
+        assume_method(db, "TypeList", m, mutates=True, returns="u:type" if m == "pop" else None)
+    db.add(Contract(f"{CTX}.find_types", variant="call-view", trusted=True, call_default=True, params={}, returns="u:TypeList", raises={},
+                    call_ensures=["result == uf('XmlContext.find_types', 'u:TypeList', self.xsi_cache, qname)"],
+                    note="call-site view: the index entry of the qname (the same list object every time)"))
+    collab.field(db, "type", "__mro__", "seq[u:type]")
+
+    def types_of(ex, st, v):
+        from pyvc.contracts import pure_result
+        yield st, pure_result(ex, st, "TypeList.items", "seq[u:type]", [v])
+
+    db.opaque_ops[("TypeList", "iter")] = types_of
+
+    def context(mk, base):
+        return mk.obj(CTX, {"cache": "opaque:PyDict", "xsi_cache": "opaque:XsiCache", "sys_modules": "int",
+                            "class_type": "opaque:ClassType", "models_package": "str|None",
+                            "element_name_generator": "opaque:Any", "attribute_name_generator": "opaque:Any"})
+
+    db.add(Contract(
+        f"{CTX}.find_subclass", variant="read-only-lookup",
+        params={"self": context, "clazz": "opaque:type", "qname": "str"},
+        ensures=[("the-index-entry-is-left-as-it-is", "unmodified(uf('XmlContext.find_types', 'u:TypeList', self.xsi_cache, qname))")],
+        raises={}, returns="u:type|None",
+        loops=[Loop(invariants=[], header="types"), Loop(invariants=[], header="tp.__mro__")],
+        properties=["C14"],
     ))
